@@ -212,9 +212,11 @@ class HamiltonianChain(MarkovChain):
         p = self.posterior(t) * self.inv_temp
         G = zeros(self.n_parameters)
         for i in range(self.n_parameters):
-            delta = zeros(self.n_parameters) + 1
-            delta[i] += 1e-5
-            G[i] = (self.posterior(t * delta) * self.inv_temp - p) / (t[i] * 1e-5)
+            # step relative to the parameter value, or an absolute step if the value is zero
+            dt = t[i] * 1e-5 if t[i] != 0.0 else 1e-5
+            t_step = t.copy()
+            t_step[i] += dt
+            G[i] = (self.posterior(t_step) * self.inv_temp - p) / dt
         return G
 
     def get_last(self) -> ndarray:
